@@ -34,8 +34,8 @@ fn decimal(u: &mut Unstructured) -> arbitrary::Result<D> {
 }
 
 fn op(u: &mut Unstructured) -> arbitrary::Result<Op> {
-    Ok(match u.int_in_range(0..=14u8)? {
-        0..=4 => Op::Bin { op: u.int_in_range(0..=2)?, overload: u.arbitrary()?, operand: u.arbitrary()? },
+    Ok(match u.int_in_range(0..=16u8)? {
+        0..=4 => Op::Bin { op: u.int_in_range(0..=6)?, overload: u.arbitrary()?, operand: u.arbitrary()?, rhs: u.int_in_range(0..=2)?, swap: u.arbitrary()? },
         5 => Op::Int { op: u.int_in_range(0..=3)?, overload: u.arbitrary()?, n: digits(u, 25)? },
         6 => {
             let ty: u8 = u.int_in_range(0..=9)?;
@@ -56,7 +56,9 @@ fn op(u: &mut Unstructured) -> arbitrary::Result<Op> {
                 Op::CloneRef
             }
         }
-        _ => Op::Sum { mask: u.arbitrary()?, borrowed: u.arbitrary()? },
+        14 => Op::Sum { mask: u.arbitrary()?, borrowed: u.arbitrary()? },
+        15 => Op::Cube,
+        _ => Op::CloneInto { dest: u.arbitrary()? },
     })
 }
 
